@@ -233,7 +233,7 @@ def drive(work, family, cases=None, n=0, seed=1, tier="quick", mode="", extra=""
     return out
 
 
-def drive_resumable(work, family, cases=None, n=0, seed=1, tier="quick", timeout=1800, max_restarts=400):
+def drive_resumable(work, family, cases=None, n=0, seed=1, tier="quick", timeout=1800, max_restarts=3000):
     """Runs a family whose cases can kill the driver process (goalign calls os.Exit from inside two lexers; a loop that
     does not read cannot be stopped).  Every case is announced by an 'intent' line; a dangling intent becomes an event of
     kind 'exit' (resp. the driver's own 'hang' event is kept) and the driver is restarted after that case."""
